@@ -46,6 +46,9 @@ func (c *checker) sample(e *sim.Ev) {
 		if e.X == "final" {
 			c.finalReads = append(c.finalReads, *e)
 		}
+		if e.X == "preprobe" {
+			c.preReads = append(c.preReads, *e)
+		}
 		if e.Z == "down" {
 			return
 		}
@@ -60,7 +63,7 @@ func (c *checker) sample(e *sim.Ev) {
 		if n := len(s.notes); n > 0 {
 			last = s.notes[n-1]
 		}
-		if (e.X == "final" || e.X == "quiet") && len(s.notes) < s.enters+s.exits {
+		if (e.X == "final" || e.X == "quiet") && c.notificationPending(s, e.T) {
 			// raft is still trying to hand a notification to a consumer that has not taken it yet
 			// (it blocks on NotifyCh by design): the server is not at rest as far as C18 goes
 			c.cov("rest-point-notification-pending")
@@ -84,6 +87,16 @@ func (c *checker) sample(e *sim.Ev) {
 func (c *checker) finishNotify() {}
 
 // resetNotes is called when a new incarnation starts.
+// notificationPending: raft has made a leadership transition it has not been able to hand to the
+// NotifyCh consumer yet. The consumer looks at the channel at least once per NotifyDelay, so after a
+// few of those a notification that is still missing was never sent.
+func (c *checker) notificationPending(s *server, now int64) bool {
+	if len(s.notes) >= s.enters+s.exits {
+		return false
+	}
+	return now-s.lastTransT <= (3*c.notifyDelayMs+1000)*1e6
+}
+
 func (s *server) resetNotes() {
 	s.notes, s.lch, s.enters, s.exits = nil, nil, 0, 0
 }
